@@ -10,6 +10,7 @@ CONSTANTS
   Protos = {TRUE, FALSE}
   Faults <- AllFaults
   Spurious = TRUE
+  AllowDrop = TRUE
 SPECIFICATION TraceSpec
 POSTCONDITION Accepted
 CHECK_DEADLOCK FALSE
